@@ -149,6 +149,11 @@ def do_replay(mod, path: str) -> int:
     viol = out.get("violation")
     if viol:
         print(f"replay {path}: {viol['kind']}: {viol['detail']}")
+        active, _ = load_known_findings(mod.ID)
+        for key in active:
+            if getattr(mod, "KNOWN", {}).get(key, {}).get("match", lambda *a: False)(part, viol["kind"], case):
+                print(f"KNOWN-FINDING: property={mod.ID} key={key} {mod.KNOWN[key]['text']}")
+                return 0
         print(f"VIOLATION property={mod.ID} replay={path}")
         return 1
     print(f"replay {path}: property held")
